@@ -564,6 +564,42 @@ impl NetworkTopology {
     }
 }
 
+#[cfg(feature = "verif")]
+impl NetworkTopology {
+    /// All (producer, consumer, fragile) links registered with `connect` (verification hook).
+    pub(crate) fn verif_links(&self) -> Vec<((u64, u64, u64), (u64, u64, u64), bool)> {
+        let mut res = vec![];
+        for ((from, _typ), to) in self.next.iter() {
+            for (to, fragile) in to {
+                res.push((
+                    (from.block_id, from.host_id, from.replica_id),
+                    (to.block_id, to.host_id, to.replica_id),
+                    *fragile,
+                ));
+            }
+        }
+        res.sort();
+        res
+    }
+
+    /// The socket of every demultiplexer: ((block, host, previous block), address, port).
+    pub(crate) fn verif_ports(&self) -> Vec<((u64, u64, u64), String, u16)> {
+        let mut res: Vec<_> = self
+            .demultiplexer_addresses
+            .iter()
+            .map(|(d, (a, p))| {
+                (
+                    (d.coord.block_id, d.coord.host_id, d.prev_block_id),
+                    a.clone(),
+                    *p,
+                )
+            })
+            .collect();
+        res.sort();
+        res
+    }
+}
+
 #[cfg(test)]
 mod tests {
     use crate::network::NetworkMessage;
